@@ -34,9 +34,13 @@ def slices(tier):
         # nested sums: K[j,k] * (J[k,j'] v[j'])  -- index names reused across scopes
         Slice("identity", [I2, U, A], {"index", "mul"}, 4, idx=(10,), geometry=GEO2, levels=[IX, IX, {"mul"}, FIN], mikinds=("name", "fixed"), **kw),
         # reciprocal powers of detJ
-        Slice("detj", [DJ], {"pow", "div", "mul"}, 4, lits=[LIT["two"], LIT["mone"], LIT["half"]], geometry=GEO2, levels=[{"pow", "div"}, {"pow", "div"}, {"mul"}, FIN], **kw),
+        Slice("detj", [DJ], {"pow", "div", "mul"}, 4, lits=[LIT["two"], LIT["mone"], LIT["half"]], geometry=GEO2, levels=[{"pow", "div"}, {"pow", "div"}, {"mul"}, FIN], **dict(kw, chain="strict")),
         # (detJ**2)**(1/2) * detJ**-1 and relatives: exponent merging must respect the sign of detJ
         Slice("detj-piola", [DJ], {"pow", "mul", "div"}, 5, lits=[LIT["two"], LIT["half"], LIT["one"]], geometry=GEO2, levels=[{"pow"}, {"pow"}, {"div"}, {"mul"}, FIN], **dict(kw, chain="strict")),
+        # compound algebra over K.J: lowering + component-tensor removal instantiate ONE summation index object with
+        # several different partners (det, sym, ... index the same component tensor more than once)
+        Slice("compound", [K2, J2, A], {"dot", "det", "sym", "skew", "dev", "cofac", "transpose", "tr", "index", "inner"}, 5, idx=(10,), geometry=GEO2,
+              levels=[{"dot"}, {"dot"}, {"det", "sym", "skew", "dev", "cofac", "transpose", "tr", "inner"}, FIN | {"index"}, FIN], mikinds=("fixed",), **dict(kw, chain="strict")),
         Slice("immersed", [J32, K23, U3, U], {"index", "mul"}, 4, idx=(10, 11, 12), maxdim=3, gdim=2, geometry=GEO32, levels=[IX, IX, {"mul"}, FIN], mikinds=("name",), **kw),
     ]
     if not q:
